@@ -47,7 +47,7 @@ ARB = ["total", "my_name", "k9", "x", "Frogs", "ByLast", "UPPER", "camelCase"]
 HEADERS = ["a", "b2", "first_name", "Order Number", "x_y", "0", "12", "Last Year Number", ".ext", "a.b", "v1.2 beta", "No."]
 STRCH = list("abcXYZ 019_-+*/\\!?,;:%&()<>{}|^@#'`.=$[]")
 # outer comments without mode settings (free text avoids ~ [ ] $, the characters C15's statement excludes from comment text)
-OUTER = ["A plain outer comment, author: me description: layout test", "just a note, nothing else", "a trailing remark",
+OUTER = ["A plain outer comment, author: me description: layout test", "just a note, nothing else", "a trailing remark", "", "  ",
          "100% done! (see #12) & more; mail a@b.c", "two lines\n   of remarks, title: T1", "parens (y) and braces {z}, 3 < 4 > 2"]
 _FNS = None
 
